@@ -88,17 +88,3 @@ func VHarness_C04_full_ops() {
 		VAssert("C04/recovered-doc-is-recover-content-plus-later-updates", vDocTok(got.Doc) == tok)
 	}
 }
-
-// VHarness_C04_txn_greater: isOpWithTxnGreaterThanOrUnpublished == unpublished ∨ (t,n) >lex (T,N), all 64-bit values.
-func VHarness_C04_txn_greater() {
-	op := &operation.AnchoredOperation{TransactionTime: VNondetU64("t"), TransactionNumber: VNondetU64("n"), CanonicalReference: VNondetString("ref")}
-	T, N := VNondetU64("T"), VNondetU64("N")
-	got := isOpWithTxnGreaterThanOrUnpublished(op, T, N)
-	want := VOr(op.CanonicalReference == "", op.TransactionTime > T, VAnd(op.TransactionTime == T, op.TransactionNumber > N))
-	if got {
-		VCover("selected")
-	} else {
-		VCover("filtered")
-	}
-	VAssert("C04/txn-greater-eq-spec", got == want)
-}
